@@ -79,9 +79,13 @@ class StepCapExceeded(Exception):
     """Harness-level timeout: not a violation."""
 
 
+class SimTaskFault(MemoryError):
+    """Injected failure of one simulated task (a failing allocation at an arbitrary point of a worker)."""
+
+
 class SimTask:
     __slots__ = ("idx", "name", "fn", "deps", "result", "exc", "started", "done",
-                 "sem", "budget", "steps", "lastline", "thread", "slices")
+                 "sem", "budget", "steps", "lastline", "thread", "slices", "fail_at")
 
     def __init__(self, idx, name, fn, deps=()):
         self.idx = idx
@@ -98,13 +102,19 @@ class SimTask:
         self.lastline = 0
         self.thread = None
         self.slices = 0
+        self.fail_at = None
 
 
 RUNLEN_LADDER = (1, 2048, 256, 64, 16, 4)   # index 0: never pre-empt
 
 
 class Scheduler:
-    def __init__(self, tape, roots, step_cap=2_000_000):
+    def __init__(self, tape, roots, step_cap=2_000_000, task_fault=None):
+        # task_fault = (k, n): the k-th task to be started (over the whole life of this scheduler) fails with
+        # SimTaskFault at its n-th traced line (if it lives that long)
+        self.task_fault = task_fault
+        self.task_fault_fired = None
+        self._started = 0
         self.tape = tape
         self.roots = tuple(roots)
         self.step_cap = step_cap
@@ -127,10 +137,21 @@ class Scheduler:
         roots = self.roots
         sched = self
 
+        last = [None]
+
         def local_trace(frame, event, arg):
             if event == "line":
                 task.steps += 1
                 task.lastline = frame.f_lineno
+                if task.fail_at is not None:
+                    here = (id(frame), frame.f_lineno)
+                    repeat = here == last[0]
+                    last[0] = here
+                    # (not on a repeated line of the same frame: see fsseam.LineCounter about CPython 3.12)
+                    if task.steps > task.fail_at and not repeat and sched.task_fault_fired is None and sys.exc_info()[0] is None:
+                        sched.task_fault_fired = (task.idx, frame.f_code.co_name, frame.f_lineno)
+                        task.fail_at = None
+                        raise SimTaskFault(f"simulated allocation failure in task {task.idx} at {frame.f_code.co_name}:{frame.f_lineno}")
                 if task.budget > 0:
                     task.budget -= 1
                     if task.budget == 0:
@@ -210,6 +231,9 @@ class Scheduler:
                 if kind == "start":
                     pending.remove(t)
                     t.started = True
+                    if self.task_fault is not None and self._started == self.task_fault[0]:
+                        t.fail_at = self.task_fault[1]
+                    self._started += 1
                     # bind dependency results lazily through closure of fn
                     th = threading.Thread(target=self._thread_main, args=(t,), daemon=True,
                                           name=f"sim-{t.idx}")
